@@ -147,7 +147,7 @@ def eval_point(tree, point, recognise, classify):
                 if lab == "infeasible":
                     break
                 labs = [lab] if lab is not None else list(n[2].keys())
-                synthetic = len(n[5]) > 4
+                synthetic = len(n[5]) > 4 and n[5][4] == "comb"
                 for l in labs:
                     ch2 = tuple(sorted(list(dict(choices).items()) + [(n[5], l)], key=repr)) if synthetic else choices
                     out |= run(n[2][l], 0, ((seq, i + 1, depth),) + cont, depth, ch2)
